@@ -55,10 +55,10 @@ theorem keys_fill3 (S : SchemaView) :
     rw [hn5] at r1 r2
     refine ⟨?_, ?_, r3, ?_, ?_⟩
     · simpa [evsFields] using r1
-    · simp only [Acc.append_folds, List.map_append, List.map_cons, List.map_nil, evsFields,
-        flds_append, flds_cons_fold, flds_nil, r2, mkFold, Fold.eid]
-      have : st.nextVid - 1 = st.nextEid := by simp only [Vid, Eid] at *; omega
-      rw [this]; rfl
+    · have hthis : st.nextVid - 1 = st.nextEid := by simp only [Vid, Eid] at *; omega
+      have hme : (mkFold path vid st n ps comp evs fds post).eid = st.nextEid := rfl
+      simp only [Acc.append_folds, List.map_append, List.map_cons, List.map_nil, evsFields,
+        flds_append, flds_cons_fold, flds_nil, r2, hme, hthis]
     · intro f hf
       simp only [Acc.append_folds, List.mem_append, List.mem_singleton] at hf
       rcases hf with rfl | hf
